@@ -319,7 +319,8 @@ fn is_default_entry(path: &str, key: &[u8], v: &Canon) -> bool {
         (b"ImageMask", Canon::Bool(false)) | (b"Interpolate", Canon::Bool(false)) => true,
         (b"Predictor", Canon::Num(n)) | (b"Colors", Canon::Num(n)) | (b"Columns", Canon::Num(n)) | (b"EarlyChange", Canon::Num(n)) if in_parms => *n == 1.0,
         (b"BitsPerComponent", Canon::Num(n)) if in_parms => *n == 8.0,
-        (b"DecodeParms", Canon::Array(a)) => a.iter().all(|x| matches!(x, Canon::Null) || matches!(x, Canon::Dict(d) if d.is_empty())),
+        // (one element per filter: null, or a dictionary that only states defaults)
+        (b"DecodeParms", Canon::Array(a)) => a.iter().all(|x| matches!(x, Canon::Null) || matches!(x, Canon::Dict(d) if d.iter().all(|(k2, v2)| is_default_entry(&format!("{}/DecodeParms", path), k2, v2)))),
         // an optional /Type that states the obvious
         (b"Type", Canon::Name(n)) => matches!(n.as_slice(), b"XObject" | b"Font" | b"ExtGState" | b"FontDescriptor" | b"Pattern" | b"Encoding"),
         (b"F", Canon::Num(n)) | (b"Rotate", Canon::Num(n)) => *n == 0.0,
